@@ -5,6 +5,115 @@ COMMON_NOTE = ("Trusted: Lean 4.33 kernel (axioms propext, Classical.choice, Quo
                "regenerating Generated.lean from the sources and by replaying implementation traces through the model.")
 PENDING_REASON = {}
 CLAIMS = {
+    "C02": {
+        "text": "Proved: on any store holding a valid forest (the predicate the build theorem establishes), an unlimited-budget query "
+                "returns exactly the min(count, n) stored items nearest under the model's bit-exact metric, sorted by (distance, id), each "
+                "once, each with normalized(built) distance, and equals brute force over the stored leaves; the traversal never fails "
+                "and its fuel always suffices. The order is OrderedFloat's total order, proved a total preorder on all bit patterns. "
+                "Real crate: every unlimited-budget query of the histories is compared bit-for-bit with the model AND with brute force "
+                "over the implementation's own stored vectors.",
+        "note": COMMON_NOTE + " `True distance` = the model's bit-exact metric; its relation to real arithmetic is C11.",
+        "technique": "Lean 4 theorems (traversal collects the forest; sorted permutation uniqueness) + brute-force oracle on implementation dumps",
+    },
+    "C03": {
+        "text": "Proved for every count, budget, oversampling and filter, with no hypothesis on the store: at most count results, distinct, "
+                "stored, inside the filter, sorted nearest-first, each with its true normalized distance; budget monotonicity (the "
+                "candidate list for a smaller budget is a prefix; no shorter result, no worse rank); filtered unlimited search = exact "
+                "search on the filter; default budget = count x trees x oversampling with saturating arithmetic; by_item of an absent id "
+                "is none and by_item = by_vector of the stored vector. Real crate: a lattice of counts (0..usize::MAX), budgets, "
+                "oversamplings and filters; answers compared bit-for-bit with the model and checked by the well-formedness, exactness "
+                "and monotonicity predicates.",
+        "note": COMMON_NOTE + " by_item = by_vector is proved for the f32 metrics (quantised: compared on the real crate).",
+        "technique": "Lean 4 theorems over the traversal model + query-lattice differential with well-formedness/monotonicity predicates",
+    },
+    "C04": {
+        "text": "Proved: routing (RoutedT) is exactly `each item with a decisive margin lies on the side the reader sends its own vector to "
+                "first`; if one tree separates x by non-degenerate planes with decisive margins only, by_item(x) with any budget >= 1 "
+                "returns x (loop invariant of the traversal over soft-float priorities, including the zero-margin rule for random splits "
+                "and NaN margins). RoutedT is preserved by delete / insert / make-tree (tree-level theorems). Real crate: margins are "
+                "recomputed by the soft-float kernels on every dump (routed predicate) and every stored item is looked up with budget 1.",
+        "note": COMMON_NOTE + " Needs margin symmetry between a stored vector and the normals (proved for equal lengths, C11_symm_dot).",
+        "technique": "Lean 4 loop-invariant proof over the traversal + routed/self-lookup predicates on implementation dumps",
+    },
+    "C07": {
+        "text": "Proved for all keys and all indexes (including 65535 and ids 0 / u32::MAX): prefix and range scans select exactly the keys "
+                "of their index and kind; every writer operation including the WHOLE build (every helper, any options, any oracle, any "
+                "cancel point) and the metric change leaves every key of every other index unchanged, hence their reads, need_build and "
+                "open results. Runs with 2-3 indexes compare the full dump (all indexes) with the model after every operation.",
+        "note": COMMON_NOTE + " Query answers of the other index follow from the unchanged keys via C02/C03; that corollary is not restated.",
+        "technique": "Lean 4 frame theorems (compositional Hoare-style library over the build monad) + multi-index differential replay",
+    },
+    "C08": {
+        "text": "Theorems over the trusted model of the LMDB environment for every interleaving of events: a reader observes exactly the "
+                "version committed when it opened, unaffected by later writes/commits; readers only ever see committed versions; an "
+                "aborted transaction (after any operations) leaves no trace; a commit publishes exactly the transaction's final state. "
+                "Real threads: one writer + 1-8 readers with barrier-controlled and free-running open points; every snapshot dump must "
+                "equal the model's committed version inside the admissible commit window and stay identical while held; every committed "
+                "version is checked by the forest and search predicates.",
+        "note": COMMON_NOTE + " MVCC itself is LMDB's (assumed); thread schedules are sampled, not proved.",
+        "technique": "Lean 4 theorems over an MVCC model (all event interleavings) + multi-threaded snapshot validation against model versions",
+    },
+    "C09": {
+        "text": "Theorems over the environment model: a crash at any point of any event sequence loses open transactions only; the committed "
+                "version is that of the last commit that returned. Real process: a child is SIGKILLed at every poll of small builds, "
+                "between item operations and at random instants inside commit; the reopened environment's dump must equal the model's "
+                "last committed (or in-flight, if commit had started) version, satisfy the forest predicates and answer exhaustive queries.",
+        "note": COMMON_NOTE + " Durability of a returned commit is LMDB's (assumed); SIGKILL stands for a crash.",
+        "technique": "Lean 4 theorems over the environment model + kill-and-reopen runs validated against the model's committed versions",
+    },
+    "C10": {
+        "text": "Transparency theorems for the whole build, for every cancel point: a build that returns Ok under a cancelling callback "
+                "returns exactly the fault-free result; an error is the cancellation or the fault-free error; cancelled iff the callback "
+                "fires before the fault-free build's last poll (including the swallowed poll in used_tree_node, under the invariant "
+                "RootsPresent of built indexes); abort restores, retry equals the fault-free build. Real crate: cancellation swept over "
+                "every poll of first and incremental builds with the poll count predicted by the model, LMDB map sizes from too small "
+                "to ample, unusable temp directory, dump after abort compared, fd/temp-file ledger over hundreds of builds.",
+        "note": COMMON_NOTE + " RootsPresent is proved preserved by builds in the C01 chain when present; the Drop-based resource clause is observed, not proved.",
+        "technique": "Lean 4 transparency proof (closure over the build monad) + exhaustive cancellation sweep and fault injection on the real crate",
+    },
+    "C11": {
+        "text": "Proved over any commutative ring, for every length: scalar, SSE-shaped and AVX-shaped kernels compute the same sum with every "
+                "index exactly once; bit-for-bit symmetry of all four f32 metrics on the soft-float instance; exact +0 self-distance for "
+                "Euclidean/Manhattan on finite vectors; cosine in [0,1]; rounding-error bounds for scalar and SIMD shapes in the standard "
+                "model. Every real kernel (dispatching, scalar, SSE, AVX+FMA) is compared BIT FOR BIT with the model's soft-float kernels "
+                "for lengths 1..300 x byte offsets 0..3 x value families, and with the exact sum within the bound.",
+        "note": COMMON_NOTE + " That the FPU satisfies the standard model is validated (bit-exact agreement with the soft-float), not proved.",
+        "technique": "Lean 4 theorems (Mathlib CommRing / reals for cover and rounding, core for bit-level symmetry) + bit-exact kernel differential",
+    },
+    "C13": {
+        "text": "The id generator is modelled with one step per atomic operation; uniqueness and freshness of every id handed out are "
+                "proved for EVERY schedule of ANY number of threads and requests, with DatabaseFull exactly at exhaustion and no counter "
+                "wrap before; the sequential generator of the build model is proved to refine it. The real ConcurrentNodeIds runs on "
+                "instrumented atomics under a controlled scheduler: >10^5 exhaustively/systematically explored schedules must match the "
+                "model step for step; multi-threaded builds (1-16 threads) are checked by the forest predicates.",
+        "note": COMMON_NOTE + " Each atomic cell is sequentially consistent in the model; weak-memory effects beyond per-operation atomicity are not modelled.",
+        "technique": "Lean 4 invariant proof over all schedules + schedule-controlled replay of the real generator",
+    },
+    "C15": {
+        "text": "target_n_trees is proved to return the requested count, and at least 1 when automatic, for all inputs (binary64 hysteresis "
+                "modelled exactly in soft-float); root count = target and bucket capacity are part of the build theorems (C01 chain) and "
+                "are evaluated on every implementation dump: trees = requested, >= 1 automatic, exactly 1 / 0 for single-bucket / empty "
+                "indexes, and no bucket above a constant capacity.",
+        "note": COMMON_NOTE,
+        "technique": "Lean 4 arithmetic theorems + forest theorems + per-dump predicates on the real crate around the capacity boundary",
+    },
+    "C17": {
+        "text": "up04to05 (down s) = s minus version records is proved as a literal equality of databases for every well-formed database "
+                "(all indexes, re-tagged children, renamed metric, one mark per pending id); the 0.5->0.6 stamp adds a version record "
+                "exactly to indexes with metadata and changes nothing else; unknown kinds raise CannotDecodeKeyMode exactly. Real crate: "
+                "old-layout databases produced from C01-style histories are upgraded by the real functions and the dumps compared with "
+                "the original and with the model.",
+        "note": COMMON_NOTE + " The inverse layout change (down) is implemented twice (Rust harness, Lean model) and cross-checked.",
+        "technique": "Lean 4 round-trip theorem + differential run of the real upgrade functions on generated old-layout databases",
+    },
+    "C18": {
+        "text": "prepare_changing_distance is characterised exactly for all 49 metric pairs: identity for the same metric; otherwise forest "
+                "and metadata gone, same item ids, vectors re-encoded from the f32 view at the declared dimension (bit-identical f32->f32, "
+                "sign pattern into quantised, +-1 out of quantised), other indexes / marks / version untouched, need_build, and the old "
+                "metric refused after the next build. All pairs are run on the real crate over several index shapes with neighbours.",
+        "note": COMMON_NOTE,
+        "technique": "Lean 4 characterisation theorems + differential replay over all ordered metric pairs",
+    },
     "C05": {
         "text": "Refinement theorems: for every history of add/append/delete/clear over any indexes the model's item store refines the "
                 "abstract map id -> last written vector (presence, bit-exact read-back for f32 metrics, sign pattern for quantised ones, "
